@@ -129,7 +129,7 @@ def rule_time_direction(ctx, rule):
 
 # ------------------------------------------------------------------ prototype / definition
 def rule_prototype_names(ctx, rule):
-    tus = cfront.load_tus()
+    tus = cfront.load_raw_tus()      # the names as written: a consistent renaming is exactly what this rule is about
     n = 0
     seen = set()
     for cfile, tu in sorted(tus.items()):
@@ -142,6 +142,7 @@ def rule_prototype_names(ctx, rule):
                 continue
             seen.add(fname)
             dn = [(p.get('name'), qtype(p)) for p in cfront.params(tu.funcs[fname])]
+            body_ = cfront.body(tu.funcs[fname])
             for pr in protos[:1]:
                 pn = [(p.get('name'), qtype(p)) for p in cfront.params(pr)]
                 if len(pn) != len(dn):
@@ -390,6 +391,8 @@ def rule_variational_call_args(ctx, rule):
                 continue
             items = comp.get('inner', [])
             for i, st in enumerate(items):
+                while st.get('kind') in ('CaseStmt', 'DefaultStmt') and st.get('inner'):
+                    st = st['inner'][-1]          # `case X: call(...);` - the call is the statement under the label
                 s0 = strip(st)
                 if not (s0.get('kind') == 'CallExpr' and (callee_name(s0) or '').startswith('reb_particles_transform_')):
                     continue
@@ -436,3 +439,29 @@ def rule_dh_pair_extents(ctx, rule):
             ctx.report(rule, '%s:extent' % b, 'src/%s:%s %s' % (cfile, bb[1], b),
                        'the inverse map sums over particles below %s while %s sums over particles below %s: with massive bodies beyond N_active the pair is no longer the identity (the whole system is shifted by about m_tp/m_star)' % (bb[0], a, ba[0]))
     ctx.covered(rule, 'democratic heliocentric maps of MERCURIUS and TRACE: forward and inverse sum over the same bodies', n, floor=2)
+
+
+# ------------------------------------------------------------------ a particle on a face of the box is inside
+def rule_box_face_strictness(ctx, rule):
+    """The boundary code treats a coordinate equal to +-boxsize/2 as inside the box (it wraps / removes only beyond the
+    face: `x > boxsize.x/2`, `x < -boxsize.x/2`). Every other test of a coordinate against half the box size draws the same
+    line; a non-strict comparison refuses or drops a particle that the boundary check has just left in place (the tree
+    update re-inserts particles through the same guard)."""
+    from . import extents
+    n = 0
+    for cfile, tu, fname, fn in _own_funcs():
+        NV = extents.named_values(fn)
+        for e in walk(cfront.body(fn)):
+            if e.get('kind') != 'BinaryOperator' or e.get('opcode') not in ('<', '<=', '>', '>='):
+                continue
+            a = extents.canon(extents.resolve(render(e['inner'][0]), NV))
+            b = extents.canon(extents.resolve(render(e['inner'][1]), NV))
+            half = lambda x: re.fullmatch(r'-?(r\.)?boxsize\.[xyz]/2(\.0*)?', x) is not None
+            coord = lambda x: re.search(r'\.(x|y|z)$', x.replace('fabs', '')) is not None and 'boxsize' not in x
+            if not ((half(a) and coord(b)) or (half(b) and coord(a))):
+                continue
+            n += 1
+            if e['opcode'] in ('<=', '>='):
+                ctx.report(rule, '%s:face' % fname, 'src/%s:%s %s' % (cfile, line_of(e), fname),
+                           'the coordinate is compared with half the box size by %s, the boundary check uses the strict comparison: a particle exactly on a face is inside for the boundary code and outside for this test (it is refused, or dropped when the tree re-inserts it)' % render(e))
+    ctx.covered(rule, 'comparisons of a coordinate with half the box size are strict everywhere', n, floor=12)
